@@ -43,6 +43,10 @@ Spec == Init /\ [][Next]_vars
 \* C08: between two checks of the backend, what was reported plus what the counter still holds is what was dropped
 DropsAddUp == pcB = "load" => reported + Last = drops
 TypeOK == qn <= Fit /\ reported <= drops
+\* liveness: once the thread has stopped logging, a backend that keeps running and eventually reads the newest message reports everything
+BLatest == BLoad(Len(C))
+FairSpec == Spec /\ WF_vars(BLatest) /\ WF_vars(BReset) /\ WF_vars(XLog)
+AllReported == <>[](reported = drops /\ nlog = MaxLogs)
 StateView == <<C, viewB, pubC, qn, nlog, drops, reported, pcB, seen>>
 ExportA == Export => PrintT("BEH " \o ToJson(hist'))
 =============================================================================
